@@ -897,6 +897,21 @@ Section Sound.
     split; [exact (SI_nil_inv _ _ PS)|split; [exact (LI_nil_inv _ _ PL)|split; [exact PC|split; [exact PB|exact PCb]]]].
   Qed.
 
+  (* the per-chunk form with the two checks spelled out *)
+  Theorem check_chunk_sound : forall fuel tpl ae depth c s o,
+    tpl_good tpl -> check_chunk c = true -> refs_resolved reg wd c = true -> blocks_good s ->
+    match run W wr wd fuel tpl ae depth c 0 s o with
+    | RFail e => no_panic e
+    | ROutOfFuel => True
+    | RDone s' o' =>
+        stack s' = stack s /\ map lf_end_ip (loops s') = map lf_end_ip (loops s) /\
+        length (caps s') = length (caps s) /\ blocks s' = blocks s /\ cur_block s' = cur_block s
+    end.
+  Proof.
+    intros fuel tpl ae depth c s o HT HC HR HB. apply (chunk_sound fuel tpl ae depth c s o HT); [|exact HB].
+    unfold good, chunk_good. rewrite HC, HR. reflexivity.
+  Qed.
+
   Lemma map_nil_inv {A B} (g : A -> B) l : map g l = [] -> l = [].
   Proof. destruct l; [reflexivity|discriminate]. Qed.
 
